@@ -755,6 +755,14 @@ class Executor:
         h = self.c.handlers.get(fname) or self.registry.funcs.get(fname)
         if h is not None:
             yield from h(self, e, p, site); return
+        if fname.split('.')[-1] in EXC_PARENTS and (isinstance(e.func, ast.Name) or ast.unparse(e.func.value) in ('exceptions', 'stix2.exceptions', 'builtins', 'json')):
+            ex = p.exact                     # exception construction: the message never influences control flow
+            for p1, vs in self.ev_seq(list(e.args) + [k.value for k in e.keywords], p):
+                if isinstance(vs, Exc):
+                    yield p1, vs; continue
+                p1 = p1.fork(); p1.exact = ex
+                yield p1, Val('excobj', x=fname if fname in EXC_PARENTS else fname.split('.')[-1])
+            return
         if isinstance(e.func, ast.Attribute):
             mname = '.' + e.func.attr
             h = self.c.handlers.get(mname)
